@@ -895,7 +895,8 @@ fn c03_abundant(c: &mut Case) -> Result<(), String> {
         reads.push(rc(&r0));
     }
     let seqs = whole_reads(&reads);
-    let thr = c.rng.range(1, 2);
+    // threshold 1: the diverging read's own k-mers are retained, so its (K+1)-mer junction is an adjacency
+    let thr = 1;
     let (mut rows, _) = lib_count_table::<K>(&seqs, stranded, thr, false);
     remove_censored_exts(stranded, &mut rows);
     let rows_p: Vec<(K, (Exts, Pay))> = rows.iter().map(|(kk, (e, cnt))| (*kk, (*e, Pay { colour: 0, ids: vec![*cnt as u32] }))).collect();
@@ -926,7 +927,7 @@ pub fn run_c03(ctx: &Ctx) {
         });
     }
     if !ctx.is_miri() && ctx.lane != "asan" {
-        ctx.run_group("abundant", ctx.n(4, 40), false, |c| c03_abundant(c));
+        ctx.run_group("abundant", ctx.n(6, 40), false, |c| c03_abundant(c));
     }
     // hand-built graphs: arbitrary node sequences, every k-mer queried
     let nh = ctx.n(20_000, 1_000_000);
